@@ -34,7 +34,11 @@ GENERIC = (
     "`serialize()`; a failed write that leaves a file; user tables with upper-case names / column descriptions; DS9 GUI flags (rotate, move, fixed) "
     "affecting geometry; `copy(field=X)` adopting X's meta; globally enabled astropy unit equivalencies; `__setitem__` / slice assignment on "
     "Regions; a caller keyword whose value is 'green'; reassigned regular-polygon attributes; boolean Python lists as index; integer-typed "
-    "coordinates in rotations; integer count weights; WCS.pixel_shape.")
+    "coordinates in rotations; integer count weights; WCS.pixel_shape; NumPy scalar centres (float32); excluded regions' masks; exactly square "
+    "rectangles; mask boxes in exact/subpixel mode; weights given as lists; pickled / copied masks; scalar SkyCoord queries; nested bounding boxes of "
+    "non-nested operands; repeated tags; `Regions.read` vs `Regions.parse`; `RegionMeta(mapping, **overrides)`; `plot()` vs `as_artist()`; "
+    "`pathlib.Path` destinations; insertion order of meta entries; `copy(meta=None)`; Python-int limits in `from_float`; simultaneous iterations; "
+    "reversed slices.")
 
 LEFT = (
     "Think about what is LEFT: e.g. the order in which two independent features are applied; behaviour at the exact edge of a documented domain "
